@@ -385,6 +385,14 @@ def monitorOp (mu : Mon) (prev : Args) (toks : List String) (implOk : Bool) (out
           if x == d then (if n == o - amt then none else some (mk "C08" "C08/decrease-not-saturating" s!"denom={x} {o}->{n} amt={amt}"))
           else (if n == o then none else some (mk "C08" "C08/decrease-other-denom" s!"denom={x} {o}->{n}"))
        else []) ++
+      -- a grant or reduction that names an expiry records exactly that expiry, and never an expired one
+      (if (kind == "increase_allowance" || kind == "decrease_allowance") && implOk then
+        match a.optExp "expires", AMap.get? cRaw spender with
+        | some e, some al =>
+          (if al.expires != e then [mk "C08" "C08/expiry-not-recorded" s!"requested={e.render} stored={al.expires.render}"] else []) ++
+          (if e.isExpired mu.blk then [mk "C08" "C08/expired-expiry-accepted" s!"requested={e.render}"] else [])
+        | _, _ => []
+       else []) ++
       -- one subkey's activity never changes another's permissions
       (changedPerm.filterMap fun k =>
         if implOk && wasAdmin && kind == "set_permissions" && spender == k then none
